@@ -114,6 +114,12 @@ SHAPES = [
     ("dundername:class", "__class__", True), ("dundername:dict", "__dict__", True),
     ("dundername:attr", "__class__.gettypename", True), ("dundername:init", "__init__", True),
     ("dundername:leading_only", "__token", True), ("dundername:leading_only2", "__x_.y", True),
+    # --- "refused before anything is invoked": the arguments of a refused call hold PERMITTED invocations with an
+    # observable effect on the canaries (str / repr / iteration / a helper); none of them may run
+    ("argeffect:str", "r.c.detonate(str(r.c))", True), ("argeffect:repr", "unknown_function(repr(r.c))", True),
+    ("argeffect:iter", "r.s.join(any(x for x in r.c))", True), ("argeffect:kw", "r.c.m(k=str(r.c))", True),
+    ("argeffect:helper", "r.c.m(upper(r.s))", True), ("argeffect:nested", "evil(lower(str(r.c)), repr(r.c))", True),
+    ("argeffect:method_arg", "r.s.upper(field_contains(r, ['s'], ['b']))", True),
 ]
 BENIGN = [
     ("ok:upper", "upper(r.s)", False), ("ok:lower_cmp", "lower(r.s) == 'abc'", False), ("ok:str", "str(r.n)", False),
@@ -192,7 +198,16 @@ class Canary:
         self._log.append(["setattr", self._name, attr])
 
     def __iter__(self):
+        self._log.append(["iter", self._name, _caller()])
         return iter([Canary(self._log, self._name + "[0]")])
+
+    def __str__(self):
+        self._log.append(["str", self._name, _caller()])
+        return "<canary %s>" % self._name
+
+    def __repr__(self):
+        self._log.append(["repr", self._name, _caller()])
+        return "<canary %s>" % self._name
 
 
 def _caller():
@@ -298,6 +313,8 @@ def run_real(case):
     res["dunder"] = [ev for ev in log if ev[0] == "dunder"]
     res["setattr"] = [ev for ev in log if ev[0] == "setattr"]
     res["canary_events"] = len(log)
+    # permitted invocations that reached a canary (str / repr / iteration, a str method called from a helper)
+    res["effects"] = [ev for ev in log if ev[0] in ("str", "repr", "iter", "strmethod")]
     res["helpers"] = helper_log
     res["tripwire"] = os.path.exists(trip)
     res["record_changed"] = _snapshot(rec) != before
@@ -331,6 +348,9 @@ def oracle(case, obs):
         return f"`{case['src']}`: evaluation modified the record"
     if obs["tripwire"]:
         return f"`{case['src']}`: the tripwire file was created"
+    if case["shape"].startswith("argeffect") and (obs.get("effects") or obs.get("helpers")):
+        return (f"`{case['src']}`: the arguments of a refused call were evaluated before the refusal "
+                f"(invoked: {(obs.get('effects') or obs.get('helpers'))[:3]})")
     if case["refused"] and "error" not in obs:
         return f"`{case['src']}`: a refused shape ({case['shape']}) evaluated to {obs.get('value')} without error"
     return None
